@@ -8,6 +8,18 @@ WORDS = ['a', 'b', 'c', 'x', 'y', 'foo', 'int', 'if', '1', '2', '0x10', '1.5', '
          '"str"', '"a,b"', '"(x"', "'c'", "','", '"\\"q\\""', "'\\''", 'L"w"', '...', '::', '%', '^', '|', '+=', '++', '1e+5', '.5', '0', 'sizeof', 'x1', '_y']
 
 
+def glue_ok(a, b):
+    """two spellings may be written adjacent without changing the token sequence"""
+    pa, pb = a in GLUE_PUNCT, b in GLUE_PUNCT
+    if pa == pb:
+        return False
+    w = b if pa else a
+    return bool(re.fullmatch(r'[A-Za-z_][A-Za-z_0-9]*|[0-9]+', w)) and not (w.isdigit() and (a == '.' or b == '.'))
+
+
+GLUE_PUNCT = set(['+', '-', '*', '/', '%', '^', '|', '~', '!', '=', '?', ':', ';', '[', ']', '{', '}', '.'])
+
+
 class PP:
     def __init__(self, r):
         self.r = r
@@ -67,7 +79,13 @@ class PP:
                     toks.append(w)
         if r.random() < 0.15:
             toks.insert(r.randrange(len(toks) + 1), '\n')     # arguments spanning lines
-        return ' '.join(toks)
+        # some neighbours are written without white space between them (where that cannot merge them into another token)
+        out = ''
+        for i, t in enumerate(toks):
+            if i and not (r.random() < 0.35 and glue_ok(toks[i - 1], t)):
+                out += ' '
+            out += t
+        return out
 
     def invoke(self, name, depth, names):
         r = self.r
@@ -104,6 +122,13 @@ class PP:
         # definitions may reference names defined later (mutual recursion) and themselves
         for n in names:
             lines.append(self.define(n, names))
+        # stringification of arguments whose tokens touch: the only white space in the result is what the source had
+        glued = None
+        if r.random() < 0.3:
+            lines.append('#define STRZ(x) #x')
+            self.macros['STRZ'] = ('func', 1, False, True)
+            glued = ['a/b', 'a*b', 'a+b', 'a<b', 'a.b', 'a->b', '(a)/(b)', '1/2', 'a/ b', 'a /b', 'a / b', 'x%y', 'x^y', 'p&q', 'p|q', '!a', '~a', 'a?b:c', 'a[1]', '"s"/2', "'c'*2", 'a/*c*/b', 'a//c\n', 'a /**/ /b', 'i=j', 'i==j', 'f(1,2)',
+                     'a/b/c', '-a', 'a-b', 'a--', '*p', '&x', 'a,b', '{a;b}', '1.5/2.', '0x1p-3/a']
         text = []
         # an invocation whose '(' and first argument tokens come from another macro's body, continued in the source,
         # with a macro in the same argument that expands to tokens containing a comma
@@ -117,6 +142,8 @@ class PP:
                 opens.append((k, f))
         for _ in range(r.randrange(3, 20)):
             k = r.random()
+            if glued and r.random() < 0.3:
+                text.append('STRZ(%s) ;' % r.choice(glued))
             if opens and k < 0.15:
                 i, f = r.choice(opens)
                 if f in self.macros and self.macros[f][0] == 'func':
@@ -155,6 +182,9 @@ REDEF = [
     ('#define A', '#define A x', False), ('#define A (x)', '#define A(x)', False), ('#define A(x) (x)', '#define A(x) ( x )', False), ('#define A(x) x', '#define A(x)  x', True),
     ('#define A(a, b) a - b', '#define A(b, a) a - b', False), ('#define A(a, b) a - b', '#define A(b, a) b - a', False), ('#define A(a, b) b', '#define A(a, c) b', False),
     ('#define A(a, b) a', '#define A(a, b, ...) a', False), ('#define A(a, ...) a', '#define A(b, ...) a', False),
+    ('#define A a/b', '#define A a /b', False), ('#define A a/b', '#define A a/ b', False), ('#define A a/b', '#define A a/b', True), ('#define A a / b', '#define A a/b', False), ('#define A(x) x/2', '#define A(x) x /2', False),
+    ('#define A a*b', '#define A a *b', False), ('#define A a+b', '#define A a+ b', False), ('#define A p->q', '#define A p ->q', False), ('#define A a.b', '#define A a. b', False), ('#define A (a)', '#define A (a )', False),
+    ('#define A a/**/b', '#define A a b', True), ('#define A a/**/b', '#define A ab', False), ('#define A a/b/**/', '#define A a/b', True), ('#define A /**/a/b', '#define A a/b', True),
     ('#define A ab', '#define A a b', False), ('#define A a\\\nb', '#define A ab', True), ('#define A +', '#define A + ', True), ('#define A . .', '#define A ..', False),
 ]
 
